@@ -60,6 +60,7 @@ def catalog(pid, tier):
         inst("join3_w2_donefirst", "join3", 2, 30, opts={"done_first": True}),
     ]
     cyc = [inst("cyc_sym2_w1", None, 1, 20, opts={"cyclic": True}, witnesses=("cycle_rejected", "all_ran"), sym=True, N=2),
+           inst("cyc_sym3_w1", None, 1, 30, opts={"cyclic": True}, witnesses=("cycle_rejected",), sym=True, N=3),
            inst("cyc_sym3_w2", None, 2, 30, opts={"cyclic": True}, witnesses=("cycle_rejected",), sym=True, N=3)]
     if pid == "C01":
         # the smallest graph on which a double enqueue becomes an ORDERING violation needs 5 nodes; restricted to runs without failures
@@ -68,7 +69,7 @@ def catalog(pid, tier):
         q = q + [five]
         t = t + [five, inst("dbljoin5_w2", "dbljoin5", 2, 48)]
     if pid == "C07":
-        q = q + cyc[:1]
+        q = q + cyc[:2]
         t = t + cyc
     if pid == "C17":
         q = [inst("int_pair_w2", "pair", 2, 30, opts={"interrupt": True}, witnesses=("interrupted",)),
